@@ -4,6 +4,7 @@ import (
 	"crypto/sha256"
 	"encoding/json"
 	"fmt"
+	"google.golang.org/protobuf/encoding/protowire"
 	"os"
 	"path/filepath"
 	"sort"
@@ -140,7 +141,7 @@ func firstDiffFile(a, b *pluginpb.CodeGeneratorResponse) string {
 
 func runC40(c *core.Ctx) {
 	repeats := core.Pick(c, 6, 12)
-	c.Rule = fmt.Sprintf("request universe: every linked file on its own (with its import closure) under 6 parameter strings (quick: all 6 on every sixth file, the default on the rest), plus synthetic files (9 extendee targets with interleaved extensions, 9 oneofs, 9 imports, 9 top-level and nested enums; every field shape of proto2/proto3/editions 2023/2024 in one message; colliding names) at API levels OPEN/HYBRID/OPAQUE. Every request is run %d times in this process and once in a second process: all responses byte-identical (deterministic marshal of CodeGeneratorResponse). Order independence: for 3 interdependent synthetic files, every permutation of file_to_generate and every permutation of the three as separate single-file requests yields the same content per generated file name. Go map iteration order is not a controlled seam: an unordered iteration over n>=8 entries survives r in-process repeats with probability <= 8^-r (documented in DESIGN.md)", repeats)
+	c.Rule = fmt.Sprintf("request universe: every linked file on its own (with its import closure) under 6 parameter strings (quick: all 6 on every sixth file, the default on the rest), plus synthetic files (9 extendee targets with interleaved extensions, 9 oneofs, 9 imports, 9 top-level and nested enums; every field shape of proto2/proto3/editions 2023/2024 in one message; colliding names) at API levels OPEN/HYBRID/OPAQUE. Every request is run %d times in this process and once in a second process: all responses byte-identical (deterministic marshal of CodeGeneratorResponse). Order independence: for 3 interdependent synthetic files, every permutation of file_to_generate and every permutation of the three as separate single-file requests yields the same content per generated file name; the same for an edition-2024 pair where one file uses custom options of the other through 'import option' (the declaring file is not a regular dependency), in both request orders. Go map iteration order is not a controlled seam: an unordered iteration over n>=8 entries survives r in-process repeats with probability <= 8^-r (documented in DESIGN.md)", repeats)
 	c.Exhaustive = true
 	var child *core.Child
 	if !core.IsChild() {
@@ -227,6 +228,50 @@ func orderIndependence(c *core.Ctx) int {
 	}
 	rec(nil, names)
 	want := map[string]string{}
+	// edition 2024 "import option": the file declaring a custom option is not a regular dependency of the
+	// file using it, so its place among the requested files is the only thing that orders the two
+	optsFile := &descriptorpb.FileDescriptorProto{
+		Name: proto.String("verif/c40/opts.proto"), Package: proto.String("verif.c40.opts"), Syntax: proto.String("editions"), Edition: descriptorpb.Edition_EDITION_2024.Enum(),
+		Dependency: []string{"google/protobuf/descriptor.proto"},
+		Extension: []*descriptorpb.FieldDescriptorProto{
+			{Name: proto.String("tag"), Number: proto.Int32(50000), Type: descriptorpb.FieldDescriptorProto_TYPE_INT32.Enum(), Label: descriptorpb.FieldDescriptorProto_LABEL_OPTIONAL.Enum(), Extendee: proto.String(".google.protobuf.FieldOptions"), JsonName: proto.String("tag")},
+			{Name: proto.String("note"), Number: proto.Int32(49999), Type: descriptorpb.FieldDescriptorProto_TYPE_STRING.Enum(), Label: descriptorpb.FieldDescriptorProto_LABEL_OPTIONAL.Enum(), Extendee: proto.String(".google.protobuf.FieldOptions"), JsonName: proto.String("note"),
+				Options: &descriptorpb.FieldOptions{Retention: descriptorpb.FieldOptions_RETENTION_SOURCE.Enum()}},
+		},
+	}
+	setGoPackage(optsFile, "ordopts")
+	fo := &descriptorpb.FieldOptions{Deprecated: proto.Bool(true)}
+	// custom options arrive as unknown fields (the plugin's own registry does not know them), higher number first
+	unk := protowire.AppendVarint(protowire.AppendTag(nil, 50000, protowire.VarintType), 7)
+	unk = protowire.AppendString(protowire.AppendTag(unk, 49999, protowire.BytesType), "n")
+	fo.ProtoReflect().SetUnknown(unk)
+	mainFile := &descriptorpb.FileDescriptorProto{
+		Name: proto.String("verif/c40/main.proto"), Package: proto.String("verif.c40.main"), Syntax: proto.String("editions"), Edition: descriptorpb.Edition_EDITION_2024.Enum(),
+		OptionDependency: []string{"verif/c40/opts.proto"},
+		MessageType: []*descriptorpb.DescriptorProto{{Name: proto.String("T"), Field: []*descriptorpb.FieldDescriptorProto{
+			{Name: proto.String("hello"), Number: proto.Int32(1), Type: descriptorpb.FieldDescriptorProto_TYPE_STRING.Enum(), Label: descriptorpb.FieldDescriptorProto_LABEL_OPTIONAL.Enum(), JsonName: proto.String("hello"), Options: fo}}}},
+	}
+	setGoPackage(mainFile, "ordmain")
+	optProtos := gen.WithGlobalDeps(optsFile, mainFile)
+	for _, lv := range apiLevels {
+		for _, p := range [][]string{{optsFile.GetName(), mainFile.GetName()}, {mainFile.GetName(), optsFile.GetName()}} {
+			c.Eval(1)
+			resp, err := gen.Run(gen.Request(optProtos, p, "default_api_level="+lv))
+			if err != nil || resp.Error != nil {
+				c.Outcome("import-option request rejected: " + trimErr(fmt.Sprint(err, resp.GetError())))
+				continue
+			}
+			for _, f := range resp.File {
+				key := lv + " " + f.GetName()
+				if w, ok := want[key]; !ok {
+					want[key] = f.GetContent()
+				} else if w != f.GetContent() {
+					c.Violation(fmt.Sprintf("content of %s depends on the order of the requested files (import option): file_to_generate=%v level=%s", f.GetName(), p, lv), nil)
+				}
+			}
+			c.Outcome("import-option request generated")
+		}
+	}
 	for _, lv := range apiLevels {
 		for _, p := range perms {
 			c.Eval(1)
